@@ -58,7 +58,8 @@ type Contract struct {
 	GhostExit    []*GhostAssign
 	GhostPre     []*GhostAssign
 	Uses         []string
-	Params       []Param // only for callbacks / stdlib contracts that rename params
+	Forced       []forcedUse // "use! a b for <substring of obligation kind>"
+	Params       []Param     // only for callbacks / stdlib contracts that rename params
 	Results      []Param
 	File         string
 	Line         int
@@ -66,6 +67,11 @@ type Contract struct {
 	NoPanic      bool
 	Notes        []string
 	Asserts      map[string][]*Clause // "call:<callee>#k" -> assumptions at call sites (assume-contract)
+}
+
+type forcedUse struct {
+	Names []string
+	Pat   string
 }
 
 type PureFn struct {
@@ -110,7 +116,7 @@ func NewContractDB() *ContractDB {
 }
 
 var clauseKeywords = map[string]bool{"func": true, "props": true, "trusted": true, "inline": true, "noinline": true, "pure-call": true,
-	"requires": true, "ensures": true, "modifies": true, "loop": true, "ghost-exit": true, "ghost-pre": true, "use": true, "ghost": true,
+	"requires": true, "ensures": true, "modifies": true, "use!": true, "loop": true, "ghost-exit": true, "ghost-pre": true, "use": true, "ghost": true,
 	"pure": true, "ufun": true, "axiom": true, "lemma": true, "callback-field": true, "callback-type": true,
 	"bounded": true, "nopanic": true, "note": true, "end": true, "params": true, "results": true}
 
@@ -470,6 +476,13 @@ func (db *ContractDB) LoadFile(path string, raw bool) error {
 				cur.Bounded = n
 			case "use":
 				cur.Uses = append(cur.Uses, strings.Fields(strings.ReplaceAll(l.rest, ",", " "))...)
+			case "use!":
+				parts := strings.SplitN(l.rest, " for ", 2)
+				fu := forcedUse{Names: strings.Fields(strings.ReplaceAll(parts[0], ",", " "))}
+				if len(parts) == 2 {
+					fu.Pat = strings.TrimSpace(parts[1])
+				}
+				cur.Forced = append(cur.Forced, fu)
 			case "params":
 				ps, err := parseParams(l.rest)
 				if err != nil {
